@@ -1,7 +1,7 @@
 (* C03: an accepted Discover is answered by exactly one correct Hello.
    Statements only: each theorem restates the full type of a lemma proved in coq/proofs and is closed by
    `exact`; Print Assumptions beneath.  Regenerate with bin/genprops.py after a lemma changes. *)
-From LLTD Require Import BlockFun BlockNominal PropsMapper.
+From LLTD Require Import BlockFun BlockNominal PropsMapper SystemRefinement.
 
 Theorem C03_accepted_discover_one_hello :
   forall (ctx : N) (c : pcfg) (g : gcfg) (mtu : N) (s : ist) (buf : list N) (h : hdr),
@@ -57,3 +57,24 @@ Theorem C03_buffer_level_model_refines :
   ledger_frame bl bb (fst (f_step ctx c g mtu s buf)) w' /\ w_now w' = w_now w.
 Proof. exact step_nominal. Qed.
 Print Assumptions C03_buffer_level_model_refines.
+
+Theorem C03_on_the_buffer_level_model :
+  forall (junk ctx : N) (c : pcfg) (g : gcfg) (mtu : N) (r : registry) (buf : list N)
+  (w : world) (bl : nat) (bb : N) (h : hdr),
+  c_mtu c = Some mtu ->
+  (576 <= mtu)%N ->
+  (mtu <= 9216)%N ->
+  (mtu <= c_rxsize c)%N ->
+  length buf = o (c_rxsize c) ->
+  BlockSafe.ledger_reg bl bb r w ->
+  parse_hdr buf = Some h ->
+  is_discover h = true ->
+  matches (reg_state r ctx) h = true ->
+  exists (r' : registry) (w' : world),
+  parse_frame no_fail no_fail junk ctx c g r buf w = Ok r' w' /\
+  w_trace w' =
+  rev
+  ((if (h_tos h =? tos_discovery)%N then [Sleep 10] else []) ++
+  [tx ctx (hello_frame c g h (h_w0 h))]) ++ w_trace w /\ BlockSafe.ledger_reg bl bb r' w'.
+Proof. exact C03_buffer_level. Qed.
+Print Assumptions C03_on_the_buffer_level_model.
